@@ -2106,8 +2106,12 @@ class x86_mnemo_metaclass(type):
     def dis(cls, op, attrib = {}):
         i = cls.__new__(cls)
         i.__init__(attrib)
+        init_offset = getattr(op, 'offset', None)
         u = i._dis(op)
         if not u:
+            if init_offset is not None:
+                # nothing was decoded: leave the stream where it was
+                op.offset = init_offset
             return None
         return i
     def asm(cls, l, symbol_off = []):
